@@ -9,6 +9,8 @@ import (
 	"testing"
 	"time"
 
+	"crypto/tls"
+
 	"google.golang.org/grpc"
 	"google.golang.org/grpc/connectivity"
 
@@ -25,40 +27,58 @@ import (
 // scheduling points, the clean-up loop's sleep is a harness-owned tick.
 func TestVerifC16Pool(t *testing.T) {
 	L := ev.Begin("C16", "c16-pool", "model_checking",
-		"controlled scheduler over the real grpcConnectionPool (RWMutex, go statement and every statement of Get/Set/newConnection/cleanup are scheduling points; the clean-up loop runs one pass per harness tick): 2-3 calls obtain the connection of the same routed backend (cold pool and warm pool) while a clean-up pass runs; every interleaving up to the preemption bound. oracle: the connection a call was given is not shut down while the call is in flight and the backend stays routed; afterwards the pool holds a usable connection for the backend")
-	tb, err := route.NewTable(bytes.NewBufferString("route add svc /x grpc://127.0.0.1:1 opts \"proto=grpc\"\n"))
+		"controlled scheduler over the real grpcConnectionPool (RWMutex, go statement and every statement of Get/Set/newConnection/cleanup are scheduling points; the clean-up loop runs one pass per harness tick): 2-3 calls obtain the connection of the same routed backend (cold pool and warm pool) while a clean-up pass runs, or of a plain and a TLS backend at the same time; every interleaving up to the preemption bound. oracle: the connection a call was given is not shut down while the call is in flight and the backend stays routed; afterwards the pool holds a usable connection for the backend")
+	tb, err := route.NewTable(bytes.NewBufferString("route add svc /x grpc://127.0.0.1:1 opts \"proto=grpc\"\nroute add tls /y grpcs://127.0.0.1:2 opts \"proto=grpcs tlsskipverify=true\"\n"))
 	if err != nil {
 		panic(err)
 	}
 	route.SetTable(tb)
-	var target *route.Target
+	var target, tlsTarget *route.Target
 	for _, rs := range tb {
-		target = rs[0].Targets[0]
+		for _, r := range rs {
+			if r.Path == "/x" {
+				target = r.Targets[0]
+			} else {
+				tlsTarget = r.Targets[0]
+			}
+		}
 	}
 	cfg := &config.Config{}
 	cfg.Proxy.GRPCMaxRxMsgSize = 1 << 20
 	cfg.Proxy.GRPCGShutdownTimeout = time.Millisecond
 	body := func(nCalls int, warm bool, passes int) func(x *vsched.X) {
+		mixed := nCalls < 0 // calls alternate between the plain and the TLS backend
+		if mixed {
+			nCalls = -nCalls
+		}
 		return func(x *vsched.X) {
 			ticks := 0
 			vhook.SleepHook = func(d time.Duration) {
 				vsched.BlockUntil("cleanup-tick", func() bool { return ticks > 0 })
 				ticks--
 			}
-			pool := newGrpcConnectionPool(nil, cfg)
+			pool := newGrpcConnectionPool(&tls.Config{}, cfg)
 			if warm {
 				if _, err := pool.Get(context.Background(), target); err != nil {
 					panic(err)
 				}
 			}
+			wrongTarget := ""
 			conns := make([]*grpc.ClientConn, nCalls)
 			shutdownInFlight := make([]bool, nCalls)
 			for i := 0; i < nCalls; i++ {
 				i := i
 				x.Go(fmt.Sprintf("call%d", i), func() {
-					c, err := pool.Get(context.Background(), target)
+					tg := target
+					if mixed && i%2 == 1 {
+						tg = tlsTarget
+					}
+					c, err := pool.Get(context.Background(), tg)
 					if err != nil || c == nil {
 						return
+					}
+					if c.Target() != tg.URL.Host {
+						wrongTarget = fmt.Sprintf("call %d for %s was given the connection to %s", i, tg.URL, c.Target())
 					}
 					conns[i] = c
 					vsched.PointL("call-in-flight")
@@ -74,6 +94,10 @@ func TestVerifC16Pool(t *testing.T) {
 			})
 			x.Run()
 			vhook.SleepHook = nil
+			if wrongTarget != "" {
+				x.Fail("call-given-the-connection-of-another-backend", wrongTarget)
+				return
+			}
 			for i := range conns {
 				if conns[i] == nil {
 					x.Fail("call-got-no-connection-for-a-routed-backend", i)
@@ -99,14 +123,14 @@ func TestVerifC16Pool(t *testing.T) {
 		}
 	}
 	si, sn := ev.Shard()
-	deadline := ev.Deadline(120, 1500)
+	deadline := ev.Deadline(240, 1800)
 	scs := []struct {
-		name        string
-		n           int
-		warm        bool
-		passes      int
+		name    string
+		n       int
+		warm    bool
+		passes  int
 		b, deep int
-	}{{"2-calls-cold-pool", 2, false, 0, 2, 4}, {"2-calls-warm-pool-cleanup-pass", 2, true, 1, 1, 2}, {"3-calls-cold-pool", 3, false, 0, 1, 2}, {"2-calls-cold-pool-cleanup-pass", 2, false, 1, 1, 2}}
+	}{{"2-calls-cold-pool", 2, false, 0, 2, 4}, {"2-calls-warm-pool-cleanup-pass", 2, true, 1, 1, 2}, {"3-calls-cold-pool", 3, false, 0, 1, 2}, {"2-calls-cold-pool-cleanup-pass", 2, false, 1, 1, 2}, {"plain+tls-backends-cold-pool", -2, false, 0, 1, 3}, {"plain+tls+plain-backends-cold-pool", -3, false, 0, 1, 2}}
 	for _, sc := range scs {
 		bound := sc.b
 		if ev.Thorough() {
